@@ -49,6 +49,11 @@ MALFORMED = {
     'entry-without-seq': ts.tlv(0xc9, ts.tlv(0xca, ID_WIRE['p'])),
     'entry-without-id': ts.tlv(0xc9, ts.tlv(0xca, ts.tlv(0xcc, b'\x02'))),
     'empty-vector': ts.tlv(0xc9, b''),
+    # the own node listed twice, one of the claims exceeding what it has produced: "claims more than produced" -> ignored entirely
+    'own-node-twice-excess-first': ts.tlv(0xc9, ts.tlv(0xca, ID_WIRE['s'] + ts.tlv(0xcc, ts.uint(99))) + ts.tlv(0xca, ID_WIRE['p'] + ts.tlv(0xcc, ts.uint(2)))
+                                          + ts.tlv(0xca, ID_WIRE['s'] + ts.tlv(0xcc, ts.uint(0)))),
+    'own-node-twice-excess-last': ts.tlv(0xc9, ts.tlv(0xca, ID_WIRE['s'] + ts.tlv(0xcc, ts.uint(0))) + ts.tlv(0xca, ID_WIRE['p'] + ts.tlv(0xcc, ts.uint(2)))
+                                         + ts.tlv(0xca, ID_WIRE['s'] + ts.tlv(0xcc, ts.uint(99)))),
 }
 
 
@@ -354,8 +359,15 @@ def run_relay(seq):
                 nodes[nm] = {'face': face, 'app': app, 'inst': inst, 'missing': missing, 'fwd': 0}
             for step in seq:
                 if step.startswith('pub'):
+                    other = 'B' if step[3] == 'A' else 'A'
+                    seen_before = {bytes(k): v for k, v in nodes[other]['inst'].local_sv.items()}
+                    nmiss = len(nodes[other]['missing'])
                     nodes[step[3]]['inst'].new_data()
                     loop.drain()
+                    # nothing has been delivered to the other instance: what one instance publishes is its own state
+                    if {bytes(k): v for k, v in nodes[other]['inst'].local_sv.items()} != seen_before or len(nodes[other]['missing']) != nmiss:
+                        viol.append(('C18|relay|instances-share-state', f'{seq}: a publication of {step[3]} changed the state of {other} '
+                                                                       f'although no sync Interest was delivered to it'))
                 elif step.startswith('tick'):
                     pass
                 else:
@@ -375,6 +387,14 @@ def run_relay(seq):
                                 pass
                         if any(after.get(k, 0) < v for k, v in before.items()):
                             viol.append(('C18|relay|decreased', f'{seq}: {before} -> {dict(after)}'))
+                        # the receiver learns of news exactly through its callback
+                        rose = any(v > before.get(k, 0) for k, v in after.items())
+                        nmiss_dst = nodes[dst].setdefault('nmiss', 0)
+                        fired = len(nodes[dst]['missing']) - nmiss_dst
+                        nodes[dst]['nmiss'] = len(nodes[dst]['missing'])
+                        if bool(fired) != rose:
+                            viol.append((f'C18|relay|missing-callback|fired={fired}|rose={rose}',
+                                         f'{seq}: delivering a sync Interest of {src} to {dst}: vector {before} -> {dict(after)}, callback fired {fired} time(s)'))
             # after forwarding everything both ways the vectors must agree
             for _ in range(3):
                 for src, dst in (('A', 'B'), ('B', 'A')):
@@ -425,7 +445,7 @@ def plan(tier, seed):
                 'Non-trivial = history containing at least two operations of different kinds.',
         'bounds': {'operations': len(ops), 'node_ids': 3, 'vector_domain': 'self in {-,0,1} x p in {-,1,2} x q in {-,1}' if maxseq == 'small' else 'each of self,p,q in {-,0,1,2}', 'depth': depth, 'malformed_kinds': list(MALFORMED),
                    'relay_depth': rd},
-        'assumptions': ['vectors with a duplicated node id are outside the alphabet',
+        'assumptions': ['vectors with a duplicated node id are outside the alphabet, except the own node listed twice with one excessive claim',
                         'whether a received vector starts a suppression period is read from the instance\'s public state; the statement only '
                         'constrains what happens when such a period ends',
                         '"promptly" after publishing = before virtual time advances when nothing intervenes',
